@@ -48,7 +48,12 @@ class FileSystemArtifactStore(SerializedArtifactStore):
         return path
 
     def _get_glob(self, node_id: NodeId) -> t.List[Path]:
-        return list(Path(self._ensure_dir()).glob(f'{node_id}.*'))
+        # The artifact of a node is exactly "<node_id>.<format>". A glob pattern cannot be used here: it matches
+        # other node ids ("a.*" matches the artifact of "a.b") and treats characters of the id as wildcards.
+        directory = self._ensure_dir()
+        paths = (Path(directory / f'{node_id}.{fmt.value}') for fmt in DataFormat)
+
+        return [path for path in paths if path.exists()]
 
     @dont_use_for_prod
     async def save(self, node_id: NodeId, data: NodeResultT, fmt: DataFormat = DataFormat.PICKLE) -> None:
